@@ -45,7 +45,7 @@ CHECKS = {
  "C06": dict(
   engine="E1",
   technique=TECH_E1 + "; all JSON token sequences up to a length bound per target type, shape matrix, all prefixes / byte substitutions, nesting bombs, url.Values menus; crash / hang oracle with subprocess isolation",
-  text="No panic, runtime fatal, stack exhaustion or hang for: every concatenation of <=4 (quick) / <=5 (thorough) tokens of a 16-symbol JSON alphabet into 12 target types (every structural kind incl. recursive types and a oneof root); every kind x label x context schema x 45 JSON values of depth <=2 in the field position; every prefix and every single-byte substitution (12 bytes) of a canonical document per schema; nesting bombs to depth 10^4 (10^5 thorough) through every recursive path, 10^5-digit numbers / keys / escapes; url.Values with 22 keys x 12 value lists per schema and all key pairs of a 17-key menu.",
+  text="No panic, runtime fatal, stack exhaustion or hang for: every concatenation of <=4 (quick) / <=5 (thorough) tokens of a 16-symbol JSON alphabet into 12 target types (every structural kind incl. recursive types and a oneof root); every kind x label x context schema x 45 JSON values of depth <=2 in the field position; every prefix and every single-byte substitution (12 bytes) of a canonical document per schema; nesting bombs to depth 10^4 (10^5 thorough) through every recursive path, 10^5-digit numbers / keys / escapes; growth oracle without a clock: for 20 input shapes (every recursive path closed / truncated, many keys / elements / map keys / unknown keys, long strings / digits) a 4x larger input may allocate at most 10x more bytes (linear = 4x, quadratic = 16x); url.Values with 22 keys x 12 value lists per schema and all key pairs of a 17-key menu.",
   note="termination by a 120 s watchdog; url.Values iteration order inside QueryToProto is a Go map order that is repeated, not owned",
   design="3/C06"),
  "C08": dict(
